@@ -109,6 +109,9 @@ pub struct FnTr<'a> {
 // through `match` arms / `if` branches / blocks): there `if c { return x; }` before a block's value is a branch.
 // `ex` (any non-tail expression) masks it.
 thread_local! { static TAIL_POS: std::cell::Cell<bool> = const { std::cell::Cell::new(false) }; }
+// builder B: the expression being translated is the last (value) statement of a statement-mode block (state-passing
+// method), i.e. the function's tail; cleared on every entry into `ex` (value positions)
+thread_local! { static STMT_TAIL: std::cell::Cell<bool> = const { std::cell::Cell::new(false) }; }
 
 pub(crate) type Env = HashMap<String, Ty>;
 pub(crate) type Stmts = Vec<(String, Rhs)>;
@@ -502,8 +505,10 @@ impl<'a> FnTr<'a> {
                     }
                     if last && semi.is_none() && !(self.ret == Ty::Unit && !self.muts.is_empty()) {
                         let prev = TAIL_POS.with(|t| t.replace(self.muts.is_empty() && !self.reg.io.borrow().mode));
+                        let prev2 = STMT_TAIL.with(|t| t.replace(!self.muts.is_empty() && !self.reg.io.borrow().mode));
                         let tail = self.tail_expr(e, env, &mut st);
                         TAIL_POS.with(|t| t.set(prev));
+                        STMT_TAIL.with(|t| t.set(prev2));
                         let tail = tail?;
                         return Ok(Seq { stmts: st, tail });
                     }
@@ -1870,15 +1875,30 @@ impl<'a> FnTr<'a> {
                     }
                 };
                 let mut ta: Option<Ty> = None;
+                let stmt_tail = STMT_TAIL.with(|t| t.get());
                 let then_stmts = &ei.then_branch.stmts;
                 let ex2 = expect.clone();
                 let tail = self.if_chain(
                     &ei.cond,
                     env,
                     &mut |this: &mut Self, env_t: &mut Env| {
-                        let (a, t) = this.block_val(then_stmts, env_t, ex2.clone())?;
-                        ta = Some(t);
-                        Ok(a)
+                        // builder B: a then-branch with `let x = e?;` lets (early exits) in the function's tail position of
+                        // a state-passing method: continue as statements (`block_tail`), where `?` is supported.  Only
+                        // taken where the value-block translation refuses, so nothing that translated before changes.
+                        let mut env_try = env_t.clone();
+                        match this.block_val(then_stmts, &mut env_try, ex2.clone()) {
+                            Ok((a, t)) => {
+                                *env_t = env_try;
+                                ta = Some(t);
+                                Ok(a)
+                            }
+                            Err(e) if e.contains("early exit inside a value block") && !this.muts.is_empty() && !this.reg.io.borrow().mode && stmt_tail => {
+                                let a = this.block_tail(then_stmts, env_t)?;
+                                ta = Some(ex2.clone().unwrap_or(this.ret.clone()));
+                                Ok(a)
+                            }
+                            Err(e) => Err(e),
+                        }
                     },
                     b,
                     st,
@@ -2590,8 +2610,10 @@ impl<'a> FnTr<'a> {
     /// Translate an expression; fallible sub-computations are hoisted into `st`.
     pub fn ex(&mut self, e: &Expr, env: &mut Env, st: &mut Stmts, expect: Option<Ty>) -> Res<(String, Ty)> {
         let prev = TAIL_POS.with(|t| t.replace(false));
+        let prev_stmt_tail = STMT_TAIL.with(|t| t.replace(false));
         let r = self.ex_inner(e, env, st, expect);
         TAIL_POS.with(|t| t.set(prev));
+        STMT_TAIL.with(|t| t.set(prev_stmt_tail));
         r
     }
 
